@@ -331,7 +331,9 @@ pub fn eval(ctx: &mut Ctx, op: &str, args: &[Sexp]) -> Option<String> {
             // (the enum arms also CLONE the variant's sub-schema before recursing: for nested enums that is
             // quadratic in the schema size — still a constant of the schema, independent of the input)
             let sw = schema_weight(&s);
-            if used > 4096 + 512 * bytes.len() + 768 * sw + 64 * sw * sw {
+            // and they do so once per decoded enum value, each of which consumes at least its index byte: the
+            // factor in front of the input length depends on the schema as well
+            if used > 4096 + 512 * bytes.len() + (bytes.len() + 1) * 128 * sw + 768 * sw + 64 * sw * sw {
                 let what = format!("decoding {} input bytes allocated {} bytes", bytes.len(), used);
                 if has_zero_width_seq(&s) {
                     ctx.oracle_fail(format!("finding:dyn-seq-zero-width-alloc {}", what));
